@@ -2,6 +2,7 @@ import ApolloModel.Model.Proto
 import ApolloModel.Model.ExecValidation
 import ApolloModel.Model.ExecValidationCache
 import ApolloModel.Model.ExecRules
+import ApolloModel.Model.ExpandSelections
 import ApolloModel.Spec.ExecValidation
 open Apollo Apollo.Proto Apollo.ExecVal
 namespace Driver
@@ -355,6 +356,59 @@ def run (stream schemaField docField : String) : String :=
 
 end Fam
 
+
+/-! ### `c17.expand` -/
+namespace Exp
+open Apollo.Expand
+
+def esels : Nat → List String → Option (List ESel × List String)
+  | 0, _ => none
+  | fuel + 1, ts =>
+    match ts with
+    | "." :: r => some ([], r)
+    | "I" :: ty :: r => do
+      let (inner, r) ← esels fuel r
+      let (rest, r) ← esels fuel r
+      pure (.inline ty inner :: rest, r)
+    | t :: r =>
+      match t.toList with
+      | 'F' :: ds => do
+        let id ← (String.ofList ds).toNat?
+        let (rest, r) ← esels fuel r
+        pure (.field id :: rest, r)
+      | 'S' :: nm => do
+        let (rest, r) ← esels fuel r
+        pure (.spread (String.ofList nm) :: rest, r)
+      | _ => none
+    | [] => none
+
+def frags (fuel : Nat) : Nat → List String → Option (Frags × List String)
+  | 0, ts => some ([], ts)
+  | k + 1, n :: tc :: r => do
+    let (b, r) ← esels fuel r
+    let (more, r) ← frags fuel k r
+    pure ((n, (tc, b)) :: more, r)
+  | _ + 1, _ => none
+
+def run (field : String) : String :=
+  let ts := ((String.ofList (decodeField field)).splitOn " ").filter (· ≠ "")
+  match ts with
+  | c :: r =>
+    match c.toNat? with
+    | some k =>
+      match frags (ts.length + 2) k r with
+      | some (fs, root :: r2) =>
+        match esels (ts.length + 2) r2 with
+        | some (body, []) =>
+          let out := ((expand fs [(root, body)]).map fun (ty, id) => ty ++ "." ++ toString id).mergeSort (fun a b => decide (a ≤ b))
+          if out.isEmpty then "-" else " ".intercalate out
+        | _ => "bad-case"
+      | _ => "bad-case"
+    | none => "bad-case"
+  | [] => "bad-case"
+
+end Exp
+
 /-- streams of property C17 are named `c17.<name>` -/
 def c17 (stream : String) (fs : List String) : String :=
   match stream, fs with
@@ -382,6 +436,7 @@ def c17 (stream : String) (fs : List String) : String :=
     match c17AFieldsAll (String.ofList (decodeField fs)) with
     | some fs => if xingCachedDoc AField.beqList 128 [fs] then "ok" else "conflict"
     | none => "bad-case"
+  | "c17.expand", [e] => Exp.run e
   | "c17.ops", [sc, d] => Fam.run "c17.ops" sc d
   | "c17.frags", [sc, d] => Fam.run "c17.frags" sc d
   | "c17.fields", [sc, d] => Fam.run "c17.fields" sc d
